@@ -945,3 +945,150 @@ func canonFloat(f *big.Float) *big.Float {
 }
 
 func canonNum(d NumDesc) *big.Float { return canonFloat(d.Float()) }
+
+// ---------------------------------------------------------------------------
+// known sets that store unknown members: a known value whose length is not known
+
+// simC05KnownSets: a known set with k wholly-known distinct members and u >= 1 unknown ones may
+// turn out to have any length from max(1, k) (every unknown coalesces) to k+u; its reported range
+// and any refinement of it must never exclude a length or a concrete set it admits.
+func simC05KnownSets(c *Ctx) {
+	num := c.G(2) == 1
+	k := c.G(4)
+	u := 1 + c.G(3)
+	var members []cty.Value
+	var known []cty.Value
+	for i := 0; i < k; i++ {
+		var m cty.Value
+		if num {
+			m = cty.NumberIntVal(int64(10 + i))
+		} else {
+			m = cty.StringVal(string(rune('a' + i)))
+		}
+		known = append(known, m)
+		members = append(members, m)
+	}
+	ety := cty.String
+	if num {
+		ety = cty.Number
+	}
+	for i := 0; i < u; i++ {
+		un := cty.UnknownVal(ety)
+		switch c.G(3) {
+		case 1:
+			un = un.RefineNotNull()
+		case 2:
+			if num {
+				un = un.Refine().NumberRangeLowerBound(cty.NumberIntVal(int64(i)), true).NewValue()
+			} else {
+				un = un.Refine().StringPrefixFull("p").NewValue()
+			}
+		}
+		members = append(members, un)
+	}
+	for i := len(members) - 1; i > 0; i-- {
+		j := c.G(i + 1)
+		members[i], members[j] = members[j], members[i]
+	}
+	s := cty.SetVal(members)
+	observe(c, s, "SetVal")
+	n := s.LengthInt() // stored members (indistinguishable unknowns are all kept)
+	minPossible := k
+	if minPossible < 1 {
+		minPossible = 1
+	}
+	c.Event("known set of %d known and %d unknown members (%d stored): %s", k, u, n, safeGoString(s))
+	c.AddShape(fmt.Sprintf("knownset k=%d u=%d num=%t", k, u, num))
+	// concrete sets the value may turn out to be: the known members plus 0..u others
+	var cands []cty.Value
+	for extra := 0; k+extra <= n; extra++ {
+		if k+extra == 0 {
+			continue
+		}
+		vals := append([]cty.Value(nil), known...)
+		for e := 0; e < extra; e++ {
+			if num {
+				vals = append(vals, cty.NumberIntVal(int64(100+e)))
+			} else {
+				vals = append(vals, cty.StringVal(fmt.Sprintf("px%d", e)))
+			}
+		}
+		cands = append(cands, cty.SetVal(vals))
+	}
+	check := func(v cty.Value, what string, lo, hi int) {
+		r := v.Range()
+		c.API("Value.Range")
+		if r.CouldBeNull() || !r.DefinitelyNotNull() {
+			c.Fail("C05", "range-nullness", "range:nullness:known-set", "%s: the range of a known set admits null", what)
+		}
+		if got := r.LengthLowerBound(); got > lo {
+			c.Fail("C05", "range-length", "range:length:known-set-lower", "%s: Range().LengthLowerBound() = %d, but the set may turn out to have only %d members (its unknown members may equal others)\nvalue: %s", what, got, lo, safeGoString(v))
+		}
+		if got := r.LengthUpperBound(); got < hi {
+			c.Fail("C05", "range-length", "range:length:known-set-upper", "%s: Range().LengthUpperBound() = %d, but the set may turn out to have %d members\nvalue: %s", what, got, hi, safeGoString(v))
+		}
+		for _, cd := range cands {
+			l := cd.LengthInt()
+			if l < lo || l > hi {
+				continue
+			}
+			if inc := r.Includes(cd); inc.IsKnown() && inc.False() {
+				c.Fail("C05", "excluded-admitted", "includes:false-on-admitted:known-set", "%s: Range().Includes(%s) is False, but the set may turn out to be exactly that\nvalue: %s", what, safeGoString(cd), safeGoString(v))
+			}
+		}
+	}
+	check(s, "a known set storing unknown members", minPossible, n)
+	if n < 2 {
+		return
+	}
+	// refinements consistent with what the set admits must be accepted and must not exclude anything admitted
+	lo, hi := minPossible, n
+	nCalls := 1 + c.G(4)
+	for i := 0; i < nCalls; i++ {
+		var name string
+		var pan interface{}
+		var res cty.Value
+		x := c.G(n + 2)
+		kind := c.G(3)
+		func() {
+			defer func() { pan = recover() }()
+			b := s.Refine()
+			switch kind {
+			case 0:
+				name = fmt.Sprintf("CollectionLengthUpperBound(%d)", x)
+				b = b.CollectionLengthUpperBound(x)
+			case 1:
+				name = fmt.Sprintf("CollectionLengthLowerBound(%d)", x)
+				b = b.CollectionLengthLowerBound(x)
+			default:
+				name = "NotNull"
+				b = b.NotNull()
+			}
+			res = b.NewValue()
+		}()
+		c.API("RefinementBuilder (known set)")
+		consistent := kind == 2 || (kind == 0 && x >= minPossible) || (kind == 1 && x <= n)
+		c.Event("call %s consistent=%t panicked=%t", name, consistent, pan != nil)
+		if pan != nil {
+			if consistent {
+				c.Fail("C05", "rejected-consistent", "rejected:known-set", "%s on a known set that may have %d..%d members was rejected (panic: %v)\nvalue: %s", name, minPossible, n, pan, safeGoString(s))
+			}
+			c.Fired("contradiction.rejected")
+			continue
+		}
+		if !res.RawEquals(s) {
+			c.Fail("C05", "known-changed", "known-changed:known-set", "refining the known set %s with %s returned %s", safeGoString(s), name, safeGoString(res))
+		}
+		if consistent {
+			l2, h2 := lo, hi
+			if kind == 0 && x < h2 {
+				h2 = x
+			}
+			if kind == 1 && x > l2 {
+				l2 = x
+			}
+			check(res, "after "+name, l2, h2)
+		}
+	}
+	c.NonTrivial()
+}
